@@ -134,4 +134,4 @@ func (h *HookCtl) History(max int) []string {
 
 // hookPoints lists the yield points delays may be attached to.
 var hookPoints = []string{"req.accepted", "inflight.registered", "write.locked", "resp.found", "resp.delivered", "call.dispatch", "cancel.send",
-	"chan.register", "chan.forward", "chan.sink", "closechans.begin", "reconnect.begin", "frame.read", "exit.exiting-closed", "stop.begin"}
+	"chan.register", "chan.forward", "chan.sink", "closechans.begin", "reconnect.begin", "frame.read", "exit.exiting-closed", "stop.begin", "chan.close"}
